@@ -1,0 +1,30 @@
+//go:build verif
+
+package ebpf
+
+import "github.com/cilium/ebpf"
+
+// VerifDHCPMaps are the map handles Load() would take from the loaded dhcp_fastpath collection.
+type VerifDHCPMaps struct {
+	SubscriberPools      *ebpf.Map // subscriber_pools
+	VLANSubscriberPools  *ebpf.Map // vlan_subscriber_pools (optional)
+	IPPools              *ebpf.Map // ip_pools
+	Stats                *ebpf.Map // stats_map
+	ServerConfig         *ebpf.Map // server_config
+	CircuitIDMap         *ebpf.Map // circuit_id_map (optional)
+	CircuitIDSubscribers *ebpf.Map // circuit_id_subscribers (optional)
+}
+
+// VerifInjectDHCPMaps installs the eBPF map handles that Load() would take from the loaded
+// collection, so that the verification harness can let the unmodified Loader (and through it
+// dhcp.Server / dhcp.PoolManager) write into real kernel maps without attaching the XDP program
+// to an interface. Injection point only: no behaviour.
+func (l *Loader) VerifInjectDHCPMaps(m VerifDHCPMaps) {
+	l.subscriberPools = m.SubscriberPools
+	l.vlanSubscriberPools = m.VLANSubscriberPools
+	l.ipPools = m.IPPools
+	l.statsMap = m.Stats
+	l.serverConfigMap = m.ServerConfig
+	l.circuitIDMap = m.CircuitIDMap
+	l.circuitIDSubscribers = m.CircuitIDSubscribers
+}
